@@ -96,6 +96,20 @@ package bandersnatch
 //@ modifies p
 //@ end
 
+//@ func PointAffine.Equal
+//@ layer ring fr.Element
+//@ option distribute
+//@ ensures[value] result == (iszero(p.X - p1.X) && iszero(p.Y - p1.Y))
+//@ modifies nothing
+//@ end
+
+//@ func PointAffine.IsZero
+//@ layer ring fr.Element
+//@ option distribute
+//@ ensures[value] result == (iszero(p.X) && iszero(p.Y - 1))
+//@ modifies nothing
+//@ end
+
 //@ func PointAffine.setInfinity
 //@ layer ring fr.Element
 //@ option distribute
@@ -112,6 +126,24 @@ package bandersnatch
 //@ ensures[value] p.X == old(p1.X) && p.Y == old(p1.Y) && p.Z == old(p1.Z)
 //@ ensures[result] result == p
 //@ modifies p
+//@ end
+
+//@ func PointProj.Equal
+//@ layer ring fr.Element
+//@ option distribute
+//@ ghost pinf = iszero(p.Z)
+//@ ghost qinf = iszero(p1.Z)
+//@ ensures[p-infinity] pinf ==> result == qinf
+//@ ensures[q-infinity] !pinf && qinf ==> result == false
+//@ ensures[finite] !pinf && !qinf ==> result == (iszero(p.X*p1.Z - p1.X*p.Z) && iszero(p.Y*p1.Z - p1.Y*p.Z))
+//@ modifies nothing
+//@ end
+
+//@ func PointProj.IsZero
+//@ layer ring fr.Element
+//@ option distribute
+//@ ensures[value] result == (iszero(p.X) && iszero(p.Y - p.Z))
+//@ modifies nothing
 //@ end
 
 //@ func PointProj.setInfinity
@@ -192,6 +224,24 @@ package bandersnatch
 //@ end
 
 // ---------------- extended ----------------
+
+//@ func PointExtended.IsZero
+//@ layer ring fr.Element
+//@ option distribute
+//@ ensures[value] result == (iszero(p.X) && iszero(p.Y - p.Z) && iszero(p.T))
+//@ modifies nothing
+//@ end
+
+//@ func PointExtended.Equal
+//@ layer ring fr.Element
+//@ option distribute
+//@ option inline-callees FromExtended
+//@ ghost pinf = iszero(p.Z)
+//@ ghost qinf = iszero(p1.Z)
+//@ ensures[chart] pinf || qinf ==> result == false
+//@ ensures[finite] !pinf && !qinf ==> result == (iszero(p.X*inv(p.Z) - p1.X*inv(p1.Z)) && iszero(p.Y*inv(p.Z) - p1.Y*inv(p1.Z)))
+//@ modifies nothing
+//@ end
 
 //@ func PointExtended.Set
 //@ layer ring fr.Element
